@@ -2,6 +2,7 @@
 epilogues last; duplicates rejected.  Replayed through pyxis::build on a real directory tree."""
 import json, os, re
 from .common import *
+from . import tlc
 from .layout import Pipeline, payload
 from .result import Result
 
@@ -19,6 +20,10 @@ def const_names(texts):
 def run_files(pid, tier):
     res = Result(pid, tier)
     d = os.path.join(WORK, "run", f"files-{tier}")
+    # the file mapping itself (module <-> source file <-> output file) holds its invariants on a bounded universe of trees
+    fm = tlc.run_tlc("MC_FilesMap", "MC_FilesMap_q1.cfg", fresh_dir("run", f"filesmap-{tier}"), workers=1, timeout=300)
+    if fm["violation"]:
+        raise ToolError("MC_FilesMap: " + fm["violation"]["text"][:1000])
     pl = Pipeline(tier, module="MC_Files", cfgs=CFG, name="files",
                   replay_flags=["--emit-dir", os.path.join(d, "emit"), "--project", "--via-fs"])
     cov = pl.base_coverage()
@@ -48,7 +53,8 @@ def run_files(pid, tier):
             continue
         n_acc += 1
         problems = []
-        want_files = {"/".join(f["path"]) + ".rs": f for f in oracle["files"]}
+        # where each module is written: the mapping of spec/Files.tla (OutRel), not a computation of this driver
+        want_files = {f["outrel"]: f for f in oracle["files"]}
         got_files = {f["rel"]: f for f in obs.get("files", [])}
         if set(want_files) != set(got_files):
             problems.append(f"output files {sorted(got_files)}, expected {sorted(want_files)}")
